@@ -159,7 +159,7 @@ def run_case(cfg, hist=None, concrete=None, unfixed5=True, unfixed12=True):
     with LN.LNDHooks() as hooks:
         r = LN.drive(cfg, hist=hist, concrete=concrete, hooks=hooks)
     l = r["learner"]
-    term = case_term(hooks, len(l._bounds_points), cfg["dim"], not unfixed5, not unfixed12)
+    term = case_term(hooks, len(r["oracle"].corners), cfg["dim"], not unfixed5, not unfixed12)
     return r, hooks, term
 
 
@@ -176,7 +176,7 @@ def nontrivial(r, hooks):
                     ooo = True
                 asked.remove(i)
     subs = any(st["obs"] and st["obs"]["subs"] for st in hooks.steps)
-    tri = any(st["obs"] and st["obs"]["tri"] and len(st["obs"]["tri"][0]) > len(r["learner"]._bounds_points) for st in hooks.steps)
+    tri = any(st["obs"] and st["obs"]["tri"] and len(st["obs"]["tri"][0]) > len(r["oracle"].corners) for st in hooks.steps)
     return ooo and subs and tri
 
 
